@@ -18,6 +18,7 @@ import (
 	"fmt"
 	"os"
 	"reflect"
+	"sort"
 	"strings"
 	"sync"
 	"testing"
@@ -79,6 +80,56 @@ func c20Class(f *abe.Node) string {
 	}
 	walk(f)
 	return fmt.Sprintf("leaves=%d,not=%s", abe.NumLeaves(f), []string{"none", "leaf", "inner", "stacked"}[rank])
+}
+
+// Violations are collected per key and handed to the engine at the end of the unit, keeping for every key the
+// case with the smallest case id: the units run in parallel, and the recorded example must not depend on scheduling.
+type c20Viol struct {
+	caseID, what string
+	payload      interface{}
+	n            int
+}
+
+var (
+	c20ViolMu sync.Mutex
+	c20Viols  = map[*verifmc.Run]map[string]*c20Viol{}
+)
+
+func c20Violation(r *verifmc.Run, key, caseID, what string, payload interface{}) {
+	c20ViolMu.Lock()
+	defer c20ViolMu.Unlock()
+	m := c20Viols[r]
+	if m == nil {
+		m = map[string]*c20Viol{}
+		c20Viols[r] = m
+	}
+	v := m[key]
+	if v == nil {
+		m[key] = &c20Viol{caseID, what, payload, 1}
+		return
+	}
+	v.n++
+	if len(caseID) < len(v.caseID) || (len(caseID) == len(v.caseID) && caseID < v.caseID) {
+		v.caseID, v.what, v.payload = caseID, what, payload
+	}
+}
+
+func c20Flush(r *verifmc.Run) {
+	c20ViolMu.Lock()
+	m := c20Viols[r]
+	delete(c20Viols, r)
+	c20ViolMu.Unlock()
+	keys := make([]string, 0, len(m))
+	for k := range m {
+		keys = append(keys, k)
+	}
+	sort.Strings(keys)
+	for _, k := range keys {
+		v := m[k]
+		for i := 0; i < v.n && i < 100000; i++ {
+			r.Violation(k, v.caseID, v.what, v.payload)
+		}
+	}
 }
 
 // c20Parse calls Policy.FromString, turning a panic into a description.
@@ -216,7 +267,7 @@ func c20CheckFormula(r *verifmc.Run, space string, f *abe.Node, asgs []c20Asg, s
 		for k, v := range extra {
 			payload[k] = v
 		}
-		r.Violation("C20|"+entry+"|"+fail+"|"+class, caseID, what, payload)
+		c20Violation(r, "C20|"+entry+"|"+fail+"|"+class, caseID, what, payload)
 	}
 	nn := abe.NNF(f)
 	want := make([]bool, len(asgs))
@@ -394,6 +445,7 @@ func c20CheckFormula(r *verifmc.Run, space string, f *abe.Node, asgs []c20Asg, s
 func TestVerifC20_policy(t *testing.T) {
 	r := verifmc.Start(t, "C20", "policy")
 	defer r.Finish()
+	defer c20Flush(r)
 	c20SelfCheck(t)
 	r.Rule("every formula of e := leaf | not e | (e and e) | (e or e) with the stated number of leaves, every tree shape, every leaf kind, " +
 		"0..maxNot stacked negations at every node, x every assignment labels -> {absent} U values; each formula is parsed in 4 spellings, printed/reparsed and " +
@@ -433,6 +485,7 @@ func TestVerifC20_policy(t *testing.T) {
 func TestVerifC20_refcheck(t *testing.T) {
 	r := verifmc.Start(t, "C20", "refcheck")
 	defer r.Finish()
+	defer c20Flush(r)
 	r.Rule("reference evaluator on the repository's policies.json and on hand-written vectors taken from the property statement; Parse(Print(f)) = f for every " +
 		"formula of <= 3 leaves in 4 spellings; NNF = classical logic when every label is present; legacy converter reproduces testdata/ciphertext_v137 byte for byte")
 	if r.Replaying() {
